@@ -314,21 +314,30 @@ impl Model {
     /// What an ideal collector may leave behind (DESIGN.md 2.4): repeatedly delete the greatest set of live boxed
     /// objects all of whose holders are traced slots of members of the set.
     pub fn remain(&self) -> HashSet<u32> {
+        self.remain_with(&[])
+    }
+
+    /// `extra_roots`: objects held by handles the model does not list (a Cc::drop in flight).
+    pub fn remain_with(&self, extra_roots: &[u32]) -> HashSet<u32> {
         let mut alive: HashSet<u32> = self.objs.iter().filter(|o| o.val == Val::Alive).map(|o| o.id).collect();
         loop {
             let mut g: HashSet<u32> = alive.clone();
             loop {
                 let mut rm = vec![];
                 for &x in g.iter() {
-                    let mut bad = self.r.iter().chain(self.g.iter()).any(|r| *r == Some(x)) || self.pins.contains(&x);
+                    let mut bad = self.r.iter().chain(self.g.iter()).any(|r| *r == Some(x)) || self.pins.contains(&x) || extra_roots.contains(&x);
                     if !bad {
                         for o in &self.objs {
                             // captures of pending actions and hidden slots of any existing owner are external
-                            if o.actions.iter().any(|a| !a.done && a.cap == Some(x)) && (alive.contains(&o.id) || o.val != Val::Alive && o.owns_slots()) {
+                            // a capture is an untraced edge (like a hidden slot): external while its owner is unreclaimed; it
+                            // exists until its closure state is gone (the action ran or was dropped), even if the owner's
+                            // value has been dropped meanwhile (the action may be running right now)
+                            if o.actions.iter().any(|a| !a.done && a.cap == Some(x)) && (alive.contains(&o.id) || o.val != Val::Alive) {
                                 bad = true;
                                 break;
                             }
-                            let owns = alive.contains(&o.id) || (o.val != Val::Alive && o.owns_slots());
+                            // a dropped value whose drop glue may not have released its slots yet still holds real handles
+                            let owns = alive.contains(&o.id) || (o.val != Val::Alive && (o.owns_slots() || o.maybe_owns_slots()));
                             if !owns {
                                 continue;
                             }
